@@ -2,7 +2,8 @@
 # mutant_iso.sh <seeded-id> <prop> [<prop>...] : run checks against a seeded change in a private copy of /verif and a private
 # worktree of /repo (neither /repo nor /verif is touched, so it can run next to other work). TIER=quick|thorough, SEED=n.
 ID=$1; shift
-D=/tmp/mt-$ID
+SRC=${VERIF_SRC:-/verif}      # which copy of the framework to test (default: the real one)
+D=/tmp/mt-$ID${MT_SUFFIX:-}
 export GOFLAGS=-mod=mod GOPROXY=off GOSUMDB=off GOTOOLCHAIN=local
 rm -rf $D; mkdir -p $D
 git -C /repo worktree prune
@@ -10,17 +11,18 @@ git -C /repo worktree add -q $D/repo HEAD || exit 2
 if [ "$ID" != "none" ]; then
   git -C $D/repo apply /verif/seeded/$ID/patch.diff || { echo "patch does not apply"; git -C /repo worktree remove --force $D/repo; exit 2; }
 fi
-rsync -a --exclude incoming --exclude replays --exclude .git /verif/ $D/verif/
+rsync -a --exclude incoming --exclude replays --exclude .git $SRC/ $D/verif/
 mkdir -p $D/verif/replays
 sed -i "s#'/repo'#'$D/repo'#g; s#\"/repo\"#\"$D/repo\"#g; s#/repo/go.sum#$D/repo/go.sum#g" $D/verif/checklib/core.py
 sed -i "s#=> /repo#=> $D/repo#" $D/verif/harness/go.mod $D/verif/extract/go.mod 2>/dev/null
 sed -i "s#/verif/#$D/verif/#g" $D/verif/checklib/props.py
+sed -i "s#=> /repo#=> $D/repo#; s#=> /tmp/[^ ]*/repo#=> $D/repo#" $D/verif/harness/go.mod
 rm -f $D/verif/bin/extract.stamp
 cd $D/verif
 for P in "$@"; do
   timeout ${TIMEOUT:-3600} ./check $P --tier ${TIER:-quick} --seed ${SEED:-1} 2>/dev/null | grep -E "^(VIOLATION|OK|KNOWN)" | head -6 | sed "s/^/[$ID $P] /"
   # keep the first replay for inspection
-  mkdir -p /tmp/mt-replays/$ID; cp -r $D/verif/replays/* /tmp/mt-replays/$ID/ 2>/dev/null
+  mkdir -p /tmp/mt-replays/$ID; cp -r $D/verif/replays/* /tmp/mt-replays/$ID/ 2>/dev/null; cp $D/verif/evidence/$P.json /tmp/mt-replays/$ID/evidence-$P.json 2>/dev/null
 done
 cd /
 git -C /repo worktree remove --force $D/repo
